@@ -6,8 +6,8 @@
 J=4; if [ "$1" = "-j" ]; then J=$2; shift 2; fi
 FILES="$@"; [ -z "$FILES" ] && FILES=$(ls /verif/refactors/*.diff /verif/refactors/round2/*.diff)
 S=/var/tmp/verif-snap-$$
-mkdir -p $S && cp -rp /verif/check /verif/hdlint /verif/known_findings.txt /verif/mutants /verif/properties.jsonl $S/ 2>/dev/null
+mkdir -p $S && cp -rp /verif/check /verif/hdlint /verif/known_findings.txt /verif/mutants /verif/properties.jsonl /verif/tools $S/ 2>/dev/null
 rm -rf $S/hdlint/driver/target
 trap 'rm -rf $S' EXIT
 export VERIF_ROOT=$S
-echo $FILES | tr ' ' '\n' | xargs -P $J -n 1 /verif/tools/eval_patch.sh
+echo $FILES | tr ' ' '\n' | xargs -P $J -n 1 $S/tools/eval_patch.sh
